@@ -137,6 +137,45 @@ theorem reserveExact_promise (s : St) (n : Nat) (h : s.Inv) (hz : s.ZInv) (hl : 
   obtain ⟨q, hq, rfl⟩ := hp
   exact reserveExact_ge q.1 s.len n q.2 (h q hq) (hz q hq) hl
 
+/-- **a reservation never takes anything back**: `reserve(k)` / `reserve_exact(k)` leave every field's capacity at
+    least where it was, for every `k` (std: "does nothing if capacity is already sufficient") -/
+theorem leafReserve_mono (k : Char) (len add cap : Nat) : cap ≤ leafReserve k len add cap := by
+  unfold leafReserve growAmortized
+  split
+  · exact Nat.le_refl _
+  · split <;> omega
+
+theorem leafReserveExact_mono (k : Char) (len add cap : Nat) : cap ≤ leafReserveExact k len add cap := by
+  unfold leafReserveExact
+  split
+  · exact Nat.le_refl _
+  · split <;> omega
+
+/-- **a standing promise survives later reservations**: if `n` more pushes were guaranteed not to move anything (after
+    `with_capacity`, `reserve`, `reserve_exact`), they still are after any further `reserve(k)` / `reserve_exact(k)` -/
+theorem promise_survives_reserve (s : St) (n k : Nat) (h : ∀ p ∈ s.caps, s.len + n ≤ p.2) :
+    (∀ p ∈ (s.reserve k).caps, (s.reserve k).len + n ≤ p.2) ∧
+    (∀ p ∈ (s.reserveExact k).caps, (s.reserveExact k).len + n ≤ p.2) := by
+  constructor
+  · intro p hp
+    simp only [St.reserve, St.map, List.mem_map] at hp ⊢
+    obtain ⟨q, hq, rfl⟩ := hp
+    exact Nat.le_trans (h q hq) (leafReserve_mono q.1 s.len k q.2)
+  · intro p hp
+    simp only [St.reserveExact, St.map, List.mem_map] at hp ⊢
+    obtain ⟨q, hq, rfl⟩ := hp
+    exact Nat.le_trans (h q hq) (leafReserveExact_mono q.1 s.len k q.2)
+
+/-- … so the promised pushes after `reserve(n)` then `reserve_exact(k)` (any `k`) move nothing -/
+theorem reserve_then_reserveExact_promise (s : St) (n k : Nat) (h : s.Inv) (hz : s.ZInv) (hl : s.len + n ≤ MAXU) :
+    (St.pushes n ((s.reserve n).reserveExact k)).caps = ((s.reserve n).reserveExact k).caps := by
+  refine (pushes_no_realloc n _ ?_).1
+  refine (promise_survives_reserve (s.reserve n) n k ?_).2
+  intro p hp
+  simp only [St.reserve, St.map, List.mem_map] at hp ⊢
+  obtain ⟨q, hq, rfl⟩ := hp
+  exact reserve_ge q.1 s.len n q.2 (h q hq) (hz q hq) hl
+
 /-- **after `with_capacity(n)`: `n` pushes move nothing** -/
 theorem withCapacity_promise (kinds : List Char) (n : Nat) (hn : n ≤ MAXU) :
     (St.pushes n (St.new kinds n)).caps = (St.new kinds n).caps := by
